@@ -25,6 +25,7 @@ import Reamber.Lemmas.SMPairInv
 import Reamber.Lemmas.SMWriteEvents
 import Reamber.Lemmas.SMWriteChart
 import Reamber.Lemmas.SMDenoteFile
+import Reamber.Lemmas.SMRenderFile
 import Reamber.Lemmas.Snapper
 import Mathlib.Tactic.NormNum
 import Reamber.Generated.SMTables
@@ -632,7 +633,7 @@ theorem write_read_exact_chart (t0 : Rat) (cs : List BcSnap)
     simp only [hk, if_true, h1, h2, h3]
   · simp only [hk, if_false, h1]
 
-/-- **The MSD layer of a written file**: a text made of values `#p0:p1:…:pk;` (parameters without `# : ; \ /`),
+/-- **The MSD layer of a written file**: a text made of values `#p0:p1:…:pk;` (parameters without `# : ; \` and without `//`),
 comment lines `//…` and line breaks is parsed into exactly those values, parameters trimmed, in file order. -/
 theorem msd_renderItems (items : List Item) (hok : ∀ it ∈ items, ItemOk it) :
     msd (renderItems items) = some (valuesOf items) :=
@@ -653,7 +654,7 @@ def notesValue (x : WChart × List (List Str) × (Str × Str × Str × Str × St
   [tagNotes, x.2.2.1, x.2.2.2.1, x.2.2.2.2.1, x.2.2.2.2.2.1, x.2.2.2.2.2.2, renderRows x.2.1]
 
 /-- **`write_read_exact` — the whole file, any number of charts.**  Let `items` be the file (values, comment lines, line
-breaks; parameters without `# : ; \ /`) whose `#NOTES` values are, in order, the charts `L` — each with its five header
+breaks; parameters without `# : ; \` and without `//`) whose `#NOTES` values are, in order, the charts `L` — each with its five header
 parameters and the note data `renderRows out` of the measures `SMMap.write` emits for it (`ChartWritten`: C10's domain
 for the shared tempo list `cs`, objects on the snap grid, `EventsOK`, non-overlapping holds/rolls).  The numeric
 header lines enter through the renderer assumption in applied form: the `#OFFSET` parameter parses to `offsetSec`
@@ -698,6 +699,16 @@ theorem write_read_exact (t0 : Rat) (cs : List BcSnap)
     refine ⟨hci, ?_, ?_⟩
     · rw [hci]; exact this.1
     · rw [hci]; exact this.2.2
+
+/-- **`render_items`** (was `render_items_partial`): the text `SMMapSet.write` returns — `Model/SM.lean: renderWritten`,
+the 22 lines of `_write_metadata` and the nine strings of every `SMMap.write` joined by line breaks, Python's number
+rendering being the parameter `sh`; compared character for character with the implementation's text on every case —
+is literally `renderItems` of `fileItems`: the 22 header values separated by line breaks, then per chart a line break,
+the banner comment line, the `#NOTES` value (tag, five indented header parameters each on its own line, the note data
+wrapped in line breaks) and two line breaks. -/
+theorem render_items (sh : Shows) (w : Written) (hs : ∀ tv ∈ w.strs, tv.1 = '#' :: tv.1.drop 1) :
+    renderWritten sh w = renderItems (fileItems sh w) :=
+  SM.render_items sh w hs
 
 /-!
 what is still missing for the full `write_read_exact` for the single statement "denote (write ms) = ms":
